@@ -219,6 +219,22 @@ def gen_cases(base, seed, tier, shard, nshards):
         b = rnd.choice(blindings(rnd, x, True))
         cases.append(mk('generate_pub', 'G %s %s' % (h32(x), qstr([b]))))
 
+    # (5b) the same operations entered with stale entries on OpenSSL's error
+    #      queue (an earlier unrelated failure): results must not change
+    for _ in range(40 if quick else 600):
+        x = rnd.choice([rnd.getrandbits(256), rnd.choice(xs)])
+        y = rnd.choice([rand_y(rnd), rnd.choice(ys)])
+        b = rnd.choice(blindings(rnd, x, True))
+        cases.append(mk('compute-stale-errors', 'k %s %s %s' % (h256(y), h32(x), qstr([b]))))
+        cases.append(mk('generate_pub-stale-errors', 'g %s %s' % (h32(x), qstr([b]))))
+        cases.append(mk('generate-stale-errors', 'd %s' % qstr([x, b, rnd.getrandbits(256)])))
+    for _ in range(4 if quick else 60):
+        xa, xb = rnd.getrandbits(256), rnd.getrandbits(256)
+        q = [xa, rnd.getrandbits(256), xb, rnd.getrandbits(256), rnd.getrandbits(256),
+             rnd.getrandbits(256), rnd.getrandbits(256)]
+        cases.append(mk('agreement-stale-errors', 'a %s' % qstr(q)))
+        cases.append(mk('sanitycheck-stale-errors', 's %s' % h256(rnd.choice(ys))))
+
     # (6) crypto_dh_generate and two-party agreement
     for _ in range(12 if quick else 800):
         x = rnd.choice([rnd.getrandbits(256), rnd.choice(xs)])
@@ -256,7 +272,9 @@ def make_judge(st):
     def judge(c, ans):
         t = c['line'].split()
         a = ans.split()
-        op = t[0]
+        op = t[0].upper()       # lower case: entered with a stale OpenSSL error queue
+        if t[0].islower():
+            bump('entered_with_stale_openssl_errors')
         try:
             if op == 'S':
                 y = int(t[1], 16)
